@@ -430,6 +430,7 @@ Proof.
   intros o e optimize u p e' H. unfold prepare in H.
   destruct (parse_script (parse_float o) max_depth (escript e)) as [ast| | |]; try discriminate.
   destruct (compile_program (4 * List.length (escript e) + 40) ast) as [pc| | |]; try discriminate.
+  destruct (negb (Spec.Moded.well_moded ast)); [discriminate|].
   match type of H with
   | (match ?x with _ => _ end) = _ => destruct x; try discriminate
   end.
